@@ -377,6 +377,7 @@ func (chain *Chain) prepareAnnouncement(m *CosiAction) (bool, error) {
 			if err != nil {
 				logger.Verbosef("ERROR cosiSendAnnouncement updateEmptyHeadRoundAndPersist failed %s %s %v\n",
 					m.PeerId, s.Hash, err)
+				chain.node.requeueTransactions(s.Transactions)
 				return false, nil
 			}
 			chain.node.requeueTransactions(s.Transactions)
